@@ -132,6 +132,7 @@ func c14(c *Ctx) (*report.Result, error) {
 		}
 	}
 	checkWalkCuts(c, res, "O14.2")
+	checkBlobExamined(c, res, "O14.2")
 
 	// ---- O14.3
 	if f := resolve(c, res, "O14.3", anchor{"interceptor", "", "translateIndexedFields"}); f != nil {
